@@ -5,8 +5,8 @@ From DesVerif Require Import Props.Spec Props.Model Props.Bytes Props.Den Props.
 Import ListNotations.
 Open Scope N_scope.
 
-(* module path segments: non-empty, no '.', no "<any>" inside *)
-Definition wf_seg (s : str) : Prop := s <> [] /\ dotfree s /\ contains_any s = false.
+(* module path segments: no '.', not the wildcard itself *)
+Definition wf_seg (s : str) : Prop := dotfree s /\ s <> ANY.
 Definition wf_path (p : list str) : Prop := Forall wf_seg p.
 
 (* Spec.addresses on segment lists *)
@@ -18,12 +18,11 @@ Definition J (D : list sentry) (p : list str) (x : str * value) : Prop :=
 
 (* ---- small facts ---- *)
 Lemma wf_path_dotfree p : wf_path p -> Forall dotfree p.
-Proof. intros H. eapply Forall_impl; [|exact H]. intros s [_ [D _]]. exact D. Qed.
+Proof. intros H. eapply Forall_impl; [|exact H]. intros s [D _]. exact D. Qed.
 
 Lemma wf_path_noany p : wf_path p -> ~ In ANY p.
 Proof.
-  intros H X. unfold wf_path in H. rewrite Forall_forall in H. destruct (H ANY X) as [_ [_ C]].
-  rewrite contains_any_ANY in C. discriminate.
+  intros H X. unfold wf_path in H. rewrite Forall_forall in H. destruct (H ANY X) as [_ C]. exact (C eq_refl).
 Qed.
 
 Lemma wf_path_app a b : wf_path (a ++ b) -> wf_path a /\ wf_path b.
